@@ -2194,7 +2194,7 @@ static int bufr_get_desc_ccittia5
       {
       char errmsg[2048];
 
-      sprintf( errmsg, _n("STR: [%s] (%d bit) ", "STR: [%s] (%d bits) ", 
+      snprintf( errmsg, sizeof(errmsg), _n("STR: [%s] (%d bit) ", "STR: [%s] (%d bits) ", 
                nb_octet*8), strval, nb_octet*8 );
       bufr_print_debug( errmsg );
       }
